@@ -95,6 +95,27 @@ def bit_dist(eig, n, one, probs):
     return out
 
 
+def joint_with_errors(dist, eps, epsp):
+    """Distribution of measured bitstrings when every bit flips independently:
+    0 -> 1 with probability eps, 1 -> 0 with probability epsp."""
+    out: dict = {}
+    for b, p in dist.items():
+        if p <= 0:
+            continue
+        n = len(b)
+        for k in range(2 ** n):
+            m = format(k, f"0{n}b")
+            f = 1.0
+            for x, y in zip(b, m):
+                if x == "0":
+                    f *= eps if y == "1" else 1 - eps
+                else:
+                    f *= epsp if y == "0" else 1 - epsp
+            if f > 0:
+                out[m] = out.get(m, 0.0) + p * f
+    return out
+
+
 def mk_qstate(x, eig, n):
     import qutip
     from pulser_simulation import QutipState
@@ -235,6 +256,15 @@ def check_obs(case, ctx: Ctx):
         for b in cnt:
             if dist.get(b, 0.0) <= 0:
                 ctx.fail(C, "bitstrings:outside_support", f"{b} (eigenstates {eig}, one {one})")
+    # the joint distribution (flips are independent between qudits)
+    jd = joint_with_errors(dist, eps, epsp)
+    for b in set(jd) | set(cnt):
+        pj = jd.get(b, 0.0)
+        g = cnt.get(b, 0) / shots
+        sig = math.sqrt(max(pj * (1 - pj), 1e-12) / shots)
+        if abs(g - pj) > 7 * sig + 3e-3:
+            ctx.fail(C, "bitstrings:joint_distribution" + (":with_errors" if (eps or epsp) else ""),
+                     f"P({b}) sampled {g:.4f}, expected {pj:.4f} (eigenstates {eig}, one {one}, eps {eps}, eps' {epsp})")
 
 
 # ------------------------------------------------------------------ operators and states
